@@ -91,7 +91,7 @@ def _num(v: Any) -> Any:
 
 def _poly(ch: core.Chooser, dtype: str, names: Optional[List[str]] = None, shape: Optional[tuple] = None, max_terms: int = 3) -> dict:
     names = names or model.gen_names(ch.sub("n"), 1, 2, pool=["q0", "q1", "q2"])
-    shape = tuple(shape) if shape is not None else ch.choice([(), (2,), (3,), (2, 2)])
+    shape = tuple(shape) if shape is not None else ch.choice([(), (2,), (3,), (2, 2), (2, 3), (2, 1, 2)])
     size = int(numpy.prod(shape, dtype=int))
     nterms = ch.between(1, max_terms)
     exps: List[List[int]] = []
@@ -101,6 +101,16 @@ def _poly(ch: core.Chooser, dtype: str, names: Optional[List[str]] = None, shape
         e = [ch.choice([0, 0, 1, 1, 2]) for _ in names]
         if e not in exps:
             exps.append(e)
+    cs = ch.sub("special-exponents")
+    if cs.chance(0.08):
+        # exponents whose storage key is a character with a special class (digit-like superscripts, whitespace, the
+        # first non-ASCII and non-latin-1 ones): coefficient values survive whatever the key looks like
+        special = [74, 101, 119, 120, 126, 68, 69, 196, 197]
+        for e in exps:
+            if sum(e) and cs.chance(0.7):
+                new = [cs.choice(special) if v else 0 for v in e] if cs.chance(0.6) else [cs.choice(special) for _ in e]
+                if new not in exps:
+                    e[:] = new
     return {"names": names, "shape": list(shape), "dtype": dtype, "exponents": exps,
             "coefficients": [_data(ch.sub("c", i), dtype, size) for i in range(len(exps))]}
 
@@ -143,7 +153,13 @@ def generate(rs: int, tier: str, index: int) -> dict:
         a = _poly(ch.sub("a"), d1)
         rel = ch.below(3)
         bnames = a["names"] if rel == 0 else model.gen_names(ch.sub("bn"), 1, 2, pool=["q0", "q1", "q2"])
-        bshape = tuple(a["shape"]) if ch.chance(0.7) else ()
+        bshape = tuple(a["shape"]) if ch.chance(0.6) else () if ch.chance(0.4) else model.broadcast_partner_shape(ch.sub("bshape"), tuple(a["shape"]))
+        if len(a["shape"]) >= 2 and ch.sub("inner").chance(0.3):
+            # broadcasting along an axis that is not the leading one: (2,1) against (2,3), (2,1,2) against (2,3,2)
+            j = ch.sub("inner").between(1, len(a["shape"]) - 1)
+            bshape = tuple(1 if i == j else (n if n > 1 else 3) for i, n in enumerate(a["shape"]))
+            if bshape == tuple(a["shape"]):
+                bshape = tuple(n if i != j else 3 for i, n in enumerate(a["shape"]))
         step["a"], step["b"] = a, _poly(ch.sub("b"), d2, names=bnames, shape=bshape)
         step["e"] = ch.choice([0, 1, 2, 3])
         step["scalar"] = ch.choice([0, 1, 2])
